@@ -135,8 +135,12 @@ CHECKS = {
               "for T ticks: (0) the VM state after Step is the same for two resume orders of the per-processor workers; (1) a processor's "
               "state does not depend on another, unbonded processor of its VM; (2) a simulation's state does not depend on another "
               "simulation stepped in the same process; (3) of two simulations of the SAME Bondmachine object with different per-opcode delay sets "
-              "(what cmd/simfinetune runs from several workers) each obeys its own delays. Goroutine interleavings finer than a processor step, GOMAXPROCS, the race "
-              "detector's verdict, and the simbox/bmnumbers registries under concurrent callers are NOT decided by this check."),
+              "(what cmd/simfinetune runs from several workers) each obeys its own delays; (4) data-race freedom of the executed runs: every load, store and map "
+              "operation of the symbolic run is recorded per goroutine segment, the happens-before order of go statements, channel sends/receives "
+              "(including receive -> completion of an unbuffered send) and mutexes is closed, and for every memory cell with conflicting accesses in "
+              "unordered segments of different goroutines z3 decides that the two path guards cannot hold together (one VM with unbonded and with bonded "
+              "processors, with and without opcode delays; two simulations each stepped by its own goroutine). Goroutine interleavings finer than a "
+              "processor step, GOMAXPROCS, the native race detector's verdict, and the simbox/bmnumbers registries under concurrent callers are NOT decided by this check."),
         note=("Trusted: z3, go/ssa, /verif/symgo with its goroutine model; multiplications/divisions are first abstracted by uninterpreted "
               "functions (sound for 'holds'), a violated/inconclusive configuration is re-decided without abstraction; order-dependence "
               "counterexamples are confirmed by concrete evaluation of the model (a worker order cannot be forced on the Go scheduler), "
